@@ -194,6 +194,7 @@ func createCompiledRouteHandler(route *ast.Route, bytecode []byte, wsHub *websoc
 					// interpreter path does. Without this a compiled route
 					// accepts any body at all: `< input: NewUser` was enforced
 					// only when a provider injection forced interpreter mode.
+					bodyMap = applyCompiledInputDefaults(route, bodyMap)
 					if err := validateCompiledInput(route, bodyMap); err != nil {
 						ctx.Request.Body.Close()
 						return sendClientError(ctx, err.Error())
@@ -813,6 +814,34 @@ func validateCompiledInput(route *ast.Route, body map[string]interface{}) error 
 		return fmt.Errorf("input validation failed: %v", err)
 	}
 	return nil
+}
+
+// applyCompiledInputDefaults fills the declared defaults into the fields the
+// request body leaves out, as the interpreter's ApplyTypeDefaults does, so a
+// route sees the same input in both execution modes. Only literal defaults can
+// be evaluated here; the body is copied, not modified.
+func applyCompiledInputDefaults(route *ast.Route, body map[string]interface{}) map[string]interface{} {
+	named, ok := route.InputType.(ast.NamedType)
+	if !ok || body == nil {
+		return body
+	}
+	typeDef, exists := compiledTypeDefs[named.Name]
+	if !exists {
+		return body
+	}
+	result := make(map[string]interface{}, len(body))
+	for k, v := range body {
+		result[k] = v
+	}
+	for _, field := range typeDef.Fields {
+		if _, present := result[field.Name]; present || field.Default == nil {
+			continue
+		}
+		if val, ok := evalLiteralExpr(field.Default); ok {
+			result[field.Name] = val
+		}
+	}
+	return result
 }
 
 // compiledInputRequiresObject reports whether the route's declared input type
